@@ -11,7 +11,8 @@ RULE = ("(i) the GC requests of C07 with a completeness oracle: after a collecti
         "_রিড-ডাইরেক্টরি) run natively for N and 4N iterations; through the snapshot hook the arena sizes, free-list sizes and the "
         "number of natively triggered collections are read. Oracle: the arena after 4N iterations stays within threshold + 16 slots and within 16 slots of its size after N "
         "(N is past the first collection) and at least one collection happened; the numbers equal the model's prediction. "
-        "Non-trivial: the heap has an unreachable object / the loop crosses the trigger at least twice.")
+        "Non-trivial: the heap has an unreachable object / the loop crosses the trigger at least twice."
+        ' Shared name-collision family (props/collisions.py): 24 scenarios in which one name is bound more than once, x 2 layouts.')
 ASSUMPTIONS = ["the collection threshold (1000) is tied to the source by SrcFactsAgree.threshold_agree"]
 default_compare = C.compare_exact
 
@@ -124,4 +125,10 @@ def cases(rng, tier, stats):
     stats["two_phase_pairs"] = [f"{a_}->{b_}" for a_, b_ in pairs]
     stats["allocation_routes"] = list(ROUTES)
     stats["iterations"] = [N, 4 * N]
+    # one name in two roles (props/collisions.py): shadowed functions, parameters named like globals / built-ins / their own function,
+    # bare conditions, indexed and plain writes, re-declarations — every use of a name resolves to its innermost binding
+    from props import collisions
+    nc_ = collisions.family()
+    out += nc_
+    stats["name_collision_programs"] = len(nc_)
     return out
